@@ -224,13 +224,13 @@ func (c *memWS) Subprotocol() string                  { return "" }
 
 // websocketPair returns the harness end and the router end of an in-memory
 // websocket connection; both ends are real websocket peers.
-func websocketPair(ser string, qsize int) (wamp.Peer, wamp.Peer) {
+func websocketPair(ser string, qsize int, keepAlive time.Duration) (wamp.Peer, wamp.Peer) {
 	a, b := memWSPair()
 	pt := 2 // binary
 	if ser == "json" {
 		pt = 1 // text
 	}
 	cli := transport.NewWebsocketPeer(a, serializerFor(ser), pt, discardLog, 0, 16)
-	rtr := transport.NewWebsocketPeer(b, serializerFor(ser), pt, discardLog, 0, qsize)
+	rtr := transport.NewWebsocketPeer(b, serializerFor(ser), pt, discardLog, keepAlive, qsize)
 	return cli, rtr
 }
